@@ -11,7 +11,7 @@
    [map_values ko items = map snd items]). *)
 From Coq Require Import Lia Permutation.
 From Soy Require Import Model.Bytes Model.Num Model.Values Model.Outcome Model.Ast Model.MsgId Model.RefView Model.Checker
-  Model.Compile Generated.Tables Spec.Wf Spec.Determinism Proofs.ValueProofs Proofs.CheckerProofs Proofs.CompileProofs Proofs.CompileFuelProofs.
+  Model.Compile Generated.Tables Spec.Wf Spec.Determinism Spec.Safety Proofs.ValueProofs Proofs.CheckerProofs Proofs.CompileProofs Proofs.CompileFuelProofs.
 Open Scope N_scope.
 
 (* ------------------------------------------------------------------ *)
@@ -300,3 +300,166 @@ Proof.
   apply check_body_tie; assumption.
 Qed.
 End Tie.
+
+(* ------------------------------------------------------------------ *)
+(* one template, the registry *)
+
+Definition verdict_of (o : option check_err) : verdict :=
+  match o with None => Accept | Some e => Reject (cls e) end.
+
+(* one iteration of the loop of CheckDataRefs: the two models give the same verdict, with the same class of error *)
+Theorem check_template_tie ko ts t : listed ko (t_node t) ->
+  verdict_of (check_template ko (find_template ts) t) = check_template_node ts (map fst (t_params t)) (t_node t).
+Proof.
+  intros Hl. unfold check_template, check_template_node.
+  pose proof (check_node_tie ko ts (map fst (t_params t)) (walk_fuel (t_node t)) {| tc_vars := []; tc_used := [] |} (t_node t) Hl) as H.
+  pose proof (check_node_nofuel ko (find_template ts) (map fst (t_params t)) (walk_fuel (t_node t)) (t_node t)
+                (rank_lt_walk_fuel (t_node t)) {| tc_vars := []; tc_used := [] |}) as Hf.
+  change (conv {| tc_vars := []; tc_used := [] |}) with {| vars := []; used_keys := [] |} in H.
+  destruct (check_node ko (find_template ts) (map fst (t_params t)) (walk_fuel (t_node t)) _ (t_node t)) as [e|st].
+  - apply rel_err in H; [|intros ->; apply Hf; reflexivity]. rewrite H. reflexivity.
+  - cbn [rel] in H. rewrite H. cbn [conv used_keys].
+    destruct (filter (fun p => negb (mem_s p (tc_used st))) (map fst (t_params t))) as [|u us] eqn:Hu.
+    + assert (Hall : forallb (contains (tc_used st)) (map fst (t_params t)) = true).
+      { apply filter_nil_forallb. rewrite <- Hu. apply filter_ext. intros a. rewrite mem_s_contains. reflexivity. }
+      rewrite Hall. reflexivity.
+    + assert (Hall : forallb (contains (tc_used st)) (map fst (t_params t)) = false).
+      { apply not_true_is_false. intros Hc. apply filter_nil_forallb in Hc.
+        erewrite filter_ext in Hu; [rewrite Hc in Hu; discriminate|]. intros a. cbv beta. rewrite mem_s_contains. reflexivity. }
+      rewrite Hall. reflexivity.
+Qed.
+
+Definition verdict_of_failure (o : option (bstr * check_err)) : verdict :=
+  match o with None => Accept | Some (_, e) => Reject (cls e) end.
+
+Lemma check_templates_tie ko all ts : Forall (fun t => listed ko (t_node t)) ts ->
+  verdict_of_failure (first_failure (check_template ko (find_template all)) ts) = check_templates all ts.
+Proof.
+  induction 1 as [|t r Ht Hr IH]; cbn [first_failure check_templates]; [reflexivity|].
+  rewrite <- (check_template_tie ko all t Ht).
+  destruct (check_template ko (find_template all) t) as [e|]; cbn [verdict_of verdict_of_failure]; [reflexivity | exact IH].
+Qed.
+
+(* CheckDataRefs: the model used by C13 (first failing template in registry order, children of a map literal in the
+   order [ko]) and the model used by C07 (over the view of RefView.v) return the same verdict *)
+Theorem check_data_refs_tie ko reg : Forall (fun t => listed ko (t_node t)) (r_templates reg) ->
+  verdict_of_failure (first_failure (check_template ko (find_template (r_templates reg))) (r_templates reg)) = check_registry reg.
+Proof. intros H. apply check_templates_tie. exact H. Qed.
+
+(* ------------------------------------------------------------------ *)
+(* [listed] holds of the trees the parser builds and the AST dump transmits: after b9a4d3a
+   MapLiteralNode.Children() visits the keys in sorted order, whatever order Go's map iteration
+   produces them in ([sorted_after ko0] for any permutation ko0), and the model lists the items of a
+   map literal by strictly increasing key *)
+
+Fixpoint keys_sortedb (l : list bstr) : bool :=
+  match l with
+  | [] => true
+  | k :: r => match r with [] => true | k' :: _ => bstr_ltb k k' end && keys_sortedb r
+  end.
+Definition map_sorted (n : node) : bool :=
+  match n with
+  | NMapLit _ items => keys_sortedb (map fst items)
+  | NSoyDoc _ ps => forallb (fun c => match c with NSoyDocParam _ _ _ => true | _ => false end) ps   (* []*SoyDocParamNode *)
+  | _ => true
+  end.
+Definition maps_sorted (n : node) : bool := Spec.Safety.node_all map_sorted n.
+
+Lemma sorted_head_lt' r : forall k, keys_sortedb (k :: r) = true -> forall k', In k' r -> bstr_ltb k k' = true.
+Proof.
+  induction r as [|k1 r IH]; intros k Hs k' Hin; [destruct Hin|].
+  cbn [keys_sortedb] in Hs. apply andb_true_iff in Hs as [H1 H2]. destruct Hin as [<-|Hin]; [exact H1|].
+  eapply bstr_ltb_trans; [exact H1|]. apply IH; [exact H2 | exact Hin].
+Qed.
+
+Lemma sort_sorted l : keys_sortedb l = true -> sort_strings l = l.
+Proof.
+  induction l as [|k r IH]; intros Hs; [reflexivity|]. cbn [keys_sortedb] in Hs. apply andb_true_iff in Hs as [H1 H2].
+  change (sort_strings (k :: r)) with (insert_sorted k (sort_strings r)). rewrite (IH H2).
+  destruct r as [|k' r']; [reflexivity|]. cbn [insert_sorted]. unfold bstr_leb. rewrite (bstr_ltb_asym _ _ H1). reflexivity.
+Qed.
+
+Lemma bstr_ltb_ne x y : bstr_ltb x y = true -> bstr_eqb y x = false.
+Proof.
+  intros H. destruct (bstr_eqb_spec y x) as [->|]; [|reflexivity]. rewrite bstr_ltb_irrefl in H. discriminate.
+Qed.
+
+Lemma flat_map_ext_In {A B} (f g : A -> list B) l : (forall a, In a l -> f a = g a) -> flat_map f l = flat_map g l.
+Proof.
+  induction l as [|a r IH]; intros H; [reflexivity|]. cbn [flat_map]. rewrite (H a (or_introl eq_refl)), IH; [reflexivity|].
+  intros a' Ha. apply H. right. exact Ha.
+Qed.
+
+Lemma map_values_listed (items : list (bstr * node)) : keys_sortedb (map fst items) = true ->
+  flat_map (fun k => match assoc_s k items with Some v => [v] | None => [] end) (map fst items) = map snd items.
+Proof.
+  induction items as [|[k v] r IH]; intros Hs; [reflexivity|]. cbn [map fst snd flat_map assoc_s].
+  rewrite bstr_eqb_refl. cbn [app]. f_equal.
+  cbn [map fst] in Hs. pose proof (sorted_head_lt' _ _ Hs) as Hlt. cbn [keys_sortedb] in Hs. apply andb_true_iff in Hs as [_ Hs].
+  rewrite <- (IH Hs). apply flat_map_ext_In. intros k' Hin. cbn [assoc_s]. rewrite (bstr_ltb_ne _ _ (Hlt k' Hin)). reflexivity.
+Qed.
+
+Lemma map_values_sorted ko0 items : (forall ks, Permutation (ko0 ks) ks) -> keys_sortedb (map fst items) = true ->
+  map_values (sorted_after ko0) items = map snd items.
+Proof.
+  intros Hp Hs. unfold map_values, sorted_after. rewrite (sort_strings_perm _ _ (Hp (map fst items))), (sort_sorted _ Hs).
+  apply map_values_listed. exact Hs.
+Qed.
+
+Ltac split_andb :=
+  repeat match goal with H : _ && _ = true |- _ => apply andb_true_iff in H; destruct H end.
+
+(* [node_all] is inherited by the children, in whatever order they are visited *)
+Lemma node_all_children P ko n : (forall p l, P (NList p l) = true) ->
+  (forall p ps c, P (NSoyDoc p ps) = true -> In c ps -> Spec.Safety.node_all P c = true) ->
+  Spec.Safety.node_all P n = true ->
+  Forall (fun c => Spec.Safety.node_all P c = true) (children ko n).
+Proof.
+  intros HP HD H. apply Forall_forall. intros c Hc.
+  destruct n; cbn [children] in Hc; try (destruct Hc; fail); cbn [Spec.Safety.node_all] in H; split_andb;
+    repeat match goal with
+           | H : In _ (_ :: _) |- _ => destruct H as [<-|H]
+           | H : In _ (_ ++ _) |- _ => apply in_app_or in H; destruct H as [H|H]
+           | H : In _ [] |- _ => destruct H
+           | H : In _ (olist ?o) |- _ => destruct o; cbn [olist] in H
+           end;
+    try assumption;
+    try (match goal with H : forallb _ ?l = true, Hi : In c ?l |- _ => rewrite forallb_forall in H; exact (H c Hi) end).
+  - (* map literal *)
+    apply map_values_In in Hc as (k & Hk).
+    match goal with H : forallb _ items = true |- _ => rewrite forallb_forall in H; exact (H (k, c) Hk) end.
+  - (* plural: the default is a ListNode *)
+    cbn [Spec.Safety.node_all]. rewrite HP. assumption.
+  - (* plural case: the body is a ListNode *)
+    cbn [Spec.Safety.node_all]. rewrite HP. assumption.
+  - (* soydoc *) eapply HD; eassumption.
+Qed.
+
+Lemma soydoc_params_sorted p ps c : map_sorted (NSoyDoc p ps) = true -> In c ps -> Spec.Safety.node_all map_sorted c = true.
+Proof.
+  cbn [map_sorted]. intros H Hc. rewrite forallb_forall in H. specialize (H c Hc). destruct c; try discriminate. reflexivity.
+Qed.
+
+Lemma listed_of_sorted ko0 : (forall ks, Permutation (ko0 ks) ks) ->
+  forall n, maps_sorted n = true -> listed (sorted_after ko0) n.
+Proof.
+  intros Hp. assert (H : forall k n, (rank n < k)%nat -> maps_sorted n = true -> listed (sorted_after ko0) n).
+  { induction k as [|k IH]; intros n Hr Hs; [lia|]. constructor.
+    - intros p items ->. apply map_values_sorted; [exact Hp|].
+      unfold maps_sorted in Hs. cbn [Spec.Safety.node_all] in Hs. apply andb_true_iff in Hs as [Hs _]. exact Hs.
+    - pose proof (node_all_children map_sorted (sorted_after ko0) n (fun _ _ => eq_refl) soydoc_params_sorted Hs) as Hk.
+      rewrite Forall_forall in Hk |- *. intros c Hc. apply IH; [|apply Hk; exact Hc].
+      pose proof (children_rank (sorted_after ko0) n c Hc). lia. }
+  intros n. apply (H (S (rank n))). lia.
+Qed.
+
+(* the tie as C07 and C13 use it *)
+Theorem check_data_refs_models_agree ko0 reg :
+  (forall ks, Permutation (ko0 ks) ks) ->
+  forallb (fun t => maps_sorted (t_node t)) (r_templates reg) = true ->
+  verdict_of_failure (first_failure (check_template (sorted_after ko0) (find_template (r_templates reg))) (r_templates reg))
+  = check_registry reg.
+Proof.
+  intros Hp Hs. apply check_data_refs_tie. apply Forall_forall. intros t Ht. apply listed_of_sorted; [exact Hp|].
+  rewrite forallb_forall in Hs. exact (Hs t Ht).
+Qed.
